@@ -5,7 +5,7 @@
    containers and are never empty; string diffs are line diffs whose nested patches are character diffs. *)
 From Coq Require Import List NArith.
 From NB Require Import Base.Res Base.Json Base.PyStr Diff.DiffFormat Diff.Patch Diff.GenericDiff Diff.Wf
-     Diff.StringProofs Diff.StringMaster Diff.MasterProofs Diff.C02Proofs Gen.NbConfig.
+     Diff.StringProofs Diff.StringMaster Diff.MasterProofs Diff.C02Proofs Diff.NbProofs Diff.C01Proofs Gen.NbConfig.
 Import ListNotations.
 
 (* the generic differ: its diff is well-formed for the base (and patches the base into the target) *)
@@ -26,3 +26,12 @@ Proof.
   exists d. split; assumption.
 Qed.
 Print Assumptions string_diff_wellformed.
+
+(* the notebook differ (multilevel cell/output alignment under any heuristic, source lines, mime
+   bundles, attachments, single outputs; tables regenerated from /repo): whenever it returns, its diff
+   is well-formed for the base notebook *)
+Theorem notebook_diff_wellformed : forall O n a b d,
+  opcodes_valid O -> wfj a = true -> wfj b = true -> sources_are_strings a = true ->
+  diff_ O nb_config n [] a b = Ok d -> forall f, depth a < f -> wf_diff f a d = true.
+Proof. intros O n a b d H1 H2 H3 H4 H5. exact (proj1 (proj2 (nb_roundtrip O n a b d H1 H2 H3 H4 H5))). Qed.
+Print Assumptions notebook_diff_wellformed.
